@@ -43,6 +43,13 @@ def gen_items(rng, maxcells, single, rich=True, maxitems=12):
             it = ['sp', rng.choice(SPECIAL_IDX)]
         elif r < 0.8:
             it = ['ext', rng.choice(EXT_POOL)]
+            k = rng.random()
+            if k < 0.15:
+                it.append(' ')           # any character may stand in for the extended one: a blank ...
+            elif k < 0.3:
+                # ... or a special character (not the one just sent: a repeated control code is ignored)
+                prev = items[-1][1] if items and items[-1][0] == 'sp' else None
+                it.append(rng.choice([i for i in SPECIAL_IDX if i != prev]))
         elif r < 0.87:
             # backspace only right after a visible cell, with at least two cells on the row
             if cells < 2 or not items or items[-1][0] not in ('c', 'sp', 'ext') or items[-1] == ['c', ' ']:
@@ -181,7 +188,14 @@ def encode_row(spec, doubled, with_pac=True):
         if it[0] == 'c':
             pending += it[1]
         elif it[0] == 'ext':
-            pending += E.STANDIN[it[1]]
+            standin = it[2] if len(it) > 2 else None
+            if standin is None:
+                pending += E.STANDIN[it[1]]
+            elif standin == ' ':
+                pending += ' '
+            else:
+                flush()
+                ctl(E.special(standin))
             flush()
             ctl(E.extended(it[1]))
         else:
@@ -307,7 +321,14 @@ def gen_stream(rng, modes=None, rich=False, lengths=None, tagged=True, italics=F
         if n == 0:
             return ''
         tag = ('R%d' % counter[0]) if tagged and n >= 4 else ''
-        return plain_text(rng, n, tag)
+        t = plain_text(rng, n, tag)
+        if lengths and n >= 6 and rng.random() < 0.15:
+            # one or two leading blanks are cells of the row like any other (the row keeps its length)
+            k = rng.choice([1, 1, 2])
+            t = ' ' * k + t[:n - k]
+            if t.endswith(' '):
+                t = t[:-1] + 'x'
+        return t
 
     for mi, m in enumerate(modes):
         if m == 'roll':
